@@ -22,8 +22,14 @@ Fixpoint and_verdicts (a b : list sexp) : list sexp :=
 
 (* one request of a sequence served by one filter value *)
 Definition run_cors_one (O : oracles) (cfg : cors_cfg) (t : table) (req : request) (impl : sexp)
-  : sexp * list sexp * string :=
+  : sexp * list sexp * string * bool :=
   let computed := compute_allowed_methods O t (rq_path req) in
+  let probe := sx_int (sx_nth 3 impl) in
+  let kf := Nat.ltb 1 (List.length (filter (fun w => match jsr_match O (pe_toks (path_expression (s_root w))) (rq_path req) with
+                                | Some _ => true | None => false end) (t_services t)))
+            || negb (match rq_path req with
+                     | c0 :: p' => Ascii.eqb c0 slash && match rev (split slash p') with [] => true | _ :: init => forallb (fun s => negb (str_eqb s [])) init end
+                     | [] => false end) in
   let origin := hget req H_Origin in
   let '(hs, pass) := cors_decide O cfg computed req in
   let routed_ok := match route_request O t req with RInvoke _ _ _ => true | _ => false end in
@@ -61,8 +67,11 @@ Definition run_cors_one (O : oracles) (cfg : cors_cfg) (t : table) (req : reques
                 end));
       verdict "c09_actual_request_continues"
         (implb (al && negb pre) (any && Bool.eqb invoked routed_ok
-                                 && Nat.eqb (List.length (impl_hvalues H_ACAllowOrigin acl)) 1)) ],
-    cls ).
+                                 && Nat.eqb (List.length (impl_hvalues H_ACAllowOrigin acl)) 1));
+      verdict "c09_computed_methods_are_routable"
+        (implb (al && pre && any && match c_methods cfg with [] => true | _ => false end)
+               (negb (Z.eqb probe 404) && negb (Z.eqb probe 405))) ],
+    cls, kf ).
 
 (* case: (oracles cfg table (request ...)) ; impl: ((acl invoked twin) ...) *)
 Definition run_cors (c impl : sexp) : sexp :=
@@ -71,14 +80,15 @@ Definition run_cors (c impl : sexp) : sexp :=
   let t := sx_table (sx_nth 2 c) in
   let reqs := map sx_request (sx_list (sx_nth 3 c)) in
   let res := map (fun p => run_cors_one O cfg t (fst p) (snd p)) (combine reqs (sx_list impl)) in
-  let obs := map (fun x => fst (fst x)) res in
+  let obs := map (fun x => fst (fst (fst x))) res in
   let vs := match res with
             | [] => []
-            | x :: rest => fold_left (fun a y => and_verdicts a (snd (fst y))) rest (snd (fst x))
+            | x :: rest => fold_left (fun a y => and_verdicts a (snd (fst (fst y)))) rest (snd (fst (fst x)))
             end in
-  let cls := match rev res with x :: _ => snd x | [] => "empty"%string end in
+  let cls := match rev res with x :: _ => snd (fst x) | [] => "empty"%string end in
   Lst [ Lst obs; Lst vs; A (L cls);
-        Lst [ verdict "sequence_longer_than_one" (Nat.ltb 1 (List.length reqs)) ] ].
+        Lst [ verdict "sequence_longer_than_one" (Nat.ltb 1 (List.length reqs));
+              verdict "kf:K-C09-1" (existsb (fun x => snd x) res) ] ].
 
 (* ---- domain "route" (C01 C02 C03 C04 C14 C17 C18) ----
    case: (oracles table request)
